@@ -98,7 +98,7 @@ def eval_one(mod, scn, driver_ok=True, model_out=None):
 
     def _busy(signum, frame):
         _WATCHDOG_HITS[0] += 1
-        raise vtime.Deadlock(f'the scenario did not finish within {limit} s of real time (busy loop?)')
+        raise vtime.BusyLoop(f'the scenario did not finish within {limit} s of real time (busy loop?)')
     can_alarm = hasattr(signal, 'SIGALRM') and __import__('threading').current_thread() is __import__('threading').main_thread()
     if can_alarm:
         old_handler = signal.signal(signal.SIGALRM, _busy)
@@ -106,7 +106,7 @@ def eval_one(mod, scn, driver_ok=True, model_out=None):
         signal.setitimer(signal.ITIMER_REAL, limit, 2.0)
     try:
         res = mod.run_impl(scn)
-    except vtime.Deadlock as err:
+    except (vtime.Deadlock, vtime.BusyLoop) as err:
         # the REAL code hangs on this scenario (it never does on the unchanged tree): whatever the property
         # promises about the outcome of this scenario is not delivered
         rec['viol'] = [{'clause': 'terminates', 'what': f'the implementation never finishes this scenario: {err}'}]
